@@ -3,13 +3,14 @@ import time
 
 from .. import common
 from ..common import read_ndjson
-from . import routing, static
+from . import replies, routing, static
 
 NOTE = ("(a) all 2^6 override subsets x migrate x reply x replies-feature x generic, plus the same overrides declared in the opposite order, expanded by "
         "the real entry_points macro in-process: set of emitted functions and per-function token hashes (an override must not alter another entry "
         "point) judged by TLC; (b) the routing corpus incl. programs O1-O7 with user-supplied entry point functions: every document goes through "
         "the generated entry point functions (context and outcome forwarded) and through the multitest Contract impl (an overridden kind reaches the "
-        "user's function, the others the generated code)")
+        "user's function, the others the generated code); (c) programs without the replies feature (L1, L2 of the reply corpus): every reply, "
+        "whatever its id and outcome, is handed whole to the single reply method by the reply entry point and the multitest impl")
 
 
 def run(prop, tier, seed, replay):
@@ -19,6 +20,8 @@ def run(prop, tier, seed, replay):
     sv = static.validate(prop, sp, rep)
     rp = routing.pipeline(tier, seed)
     rv = routing.validate(prop, rp, rep)
+    qp = replies.pipeline(tier, seed)        # the legacy reply entry point (programs L1, L2 of the reply corpus)
+    replies.validate(prop, qp, rep)
     rc = rep.finish()
     evs = read_ndjson(sp["trace"])
     cov = {"states": sp["model"]["distinct"] + rp["model"]["distinct"], "transitions": sp["model"]["generated"] + rp["model"]["generated"],
